@@ -14,8 +14,8 @@ PROBE = {97: -1, 98: 2 ** 64, 99: 2 ** 31}
 
 
 def consts(pids=(1, 2), iters=(1,), maxobj=3, maxinc=3, maxup=2, tids=(5,), probe=(0, 7, 97, 99),
-           fixes=None, known=None):
-    return {"Pids": set(pids), "MaxInc": maxinc, "MaxUp": maxup, "Boots": {10},
+           fixes=None, known=None, attr_iters=(2,)):
+    return {"Pids": set(pids), "MaxInc": maxinc, "MaxUp": maxup, "Boots": {10}, "AttrIters": "@{" + ", ".join(map(str, sorted(attr_iters))) + "}",
             "Iters": set(iters), "MaxObj": maxobj, "Tids": set(tids), "TidOwnerPid": min(p for p in pids if p > 0),
             "Probe": set(probe), "Fixes": set(FIXES if fixes is None else fixes),
             "KnownFindings": set(KNOWN if known is None else known)}
@@ -98,7 +98,8 @@ class Adapter:
             return None
         if op == "it_start":
             k = e["k"]
-            self.gens[k] = ps.process_iter(attrs=["pid"]) if k == 2 else ps.process_iter()
+            # iterator 2 asks for something that is read from /proc (ProcIter!AttrIters = {2})
+            self.gens[k] = ps.process_iter(attrs=["pid", "status"]) if k == 2 else ps.process_iter()
             self.pending, self.queued = k, []
             return None
         if op == "it_step":
@@ -109,8 +110,8 @@ class Adapter:
                 return "iteration ended, specification predicts a yield of pid %d" % e["pid"]
             if pr.pid != e["pid"]:
                 return "yielded pid %r, specification predicts %d" % (pr.pid, e["pid"])
-            if k == 2 and getattr(pr, "info", None) != {"pid": e["pid"]}:
-                return "info == %r for attrs=['pid']" % (getattr(pr, "info", None),)
+            if k == 2 and (set(getattr(pr, "info", None) or ()) != {"pid", "status"} or pr.info["pid"] != e["pid"]):
+                return "info == %r for attrs=['pid', 'status']" % (getattr(pr, "info", None),)
             if e["fresh"]:
                 if any(pr is x for x in self.keep):
                     return "pid %d: a previously yielded object, specification predicts a fresh one" % e["pid"]
@@ -191,7 +192,10 @@ def edge_class(g, ei):
 
 DUMPS = [("dump-1pid-1iter-full", lambda: consts(pids=(1,), maxobj=3, maxinc=2, maxup=1, tids=(), probe=()), None),
          ("dump-1iter", lambda: consts(maxobj=2, maxinc=2, maxup=1, probe=(0, 7, 97, 98, 99)), 4),
-         ("dump-2iter", lambda: consts(pids=(1,), iters=(1, 2), maxobj=2, maxinc=2, maxup=1, tids=(), probe=()), 3)]
+         ("dump-2iter", lambda: consts(pids=(1,), iters=(1, 2), maxobj=2, maxinc=2, maxup=1, tids=(), probe=()), 3),
+         # one iterator that reads attrs from /proc (slot 2 is the attrs iterator): a cached process that
+         # vanishes between the listing and its visit is dropped and skipped
+         ("dump-1pid-attrs-iter", lambda: consts(pids=(1,), iters=(2,), maxobj=3, maxinc=2, maxup=1, tids=(), probe=()), 6)]
 
 
 def warm(ctx):
